@@ -577,6 +577,24 @@ func (kc *kernelCtx) hooks(b *Block, ts *TypeSpec, recv string, inline map[strin
 		if inline[key] || inline[fn.Name()] {
 			return &CalleeSpec{Inline: true}
 		}
+		if fb := kc.byBlk[pkgPathOf(fn)+"::"+key]; fb != nil && fb.first("modular") != nil {
+			return &CalleeSpec{Modular: fb, Post: func(x *Exec, st *State, args []SVal, res []SVal) {
+				// caller side of the modular rule: assume the callee's postconditions about the results
+				vars := map[string]SVal{}
+				for i, p := range fn.Params {
+					if i < len(args) {
+						vars[p.Name()] = args[i]
+					}
+				}
+				ex := &Exit{Kind: ExitReturn, Results: res}
+				env := &Env{X: x, St: st, Vars: vars, Exit: ex, UserFn: map[string]bool{}}
+				for _, c := range fb.all("ensures") {
+					if g, err := env.evalBool(c.Text); err == nil {
+						st.assume(g)
+					}
+				}
+			}}
+		}
 		if pb := kc.pures[b.Pkg+"::"+key]; pb != nil {
 			name := key
 			if c := pb.first("as"); c != nil {
